@@ -30,12 +30,13 @@ theorem respOf_append (a b : List Out) : respOf (a ++ b) = respOf a ++ respOf b 
 /-- **C02 (delivery matches).** A response is put on a request's pipe only if that request is
 still in the table under the *same token* and for the *endpoint the datagram came from* (or it was
 sent to a multicast address); exactly that datagram is delivered, to exactly one request, marked
-final unless the request asked to observe and the response carries an Observe option. -/
+final unless the request asked to observe and the response is a successful (2.xx) one carrying an
+Observe option. -/
 theorem C02_delivery_matches (s : State) (remote : Remote) (w : Wire) (r : Nat) (w' : Wire) (f : Bool)
     (h : (r, w', f) ∈ respOf (processResponse s remote w).2.1) :
     w' = w ∧ respOf (processResponse s remote w).2.1 = [(r, w, f)] ∧
     ∃ o ∈ s.outgoing, o.req = r ∧ o.token = w.token ∧ (o.remote = some remote ∨ o.remote = none) ∧
-      f = !(o.observing && w.obs.isSome) := by
+      f = !(o.observing && w.obs.isSome && isSuccessful w.code) := by
   unfold processResponse at h ⊢
   simp only at h ⊢
   split at h
